@@ -149,6 +149,12 @@ type Interp struct {
 	// that only package initialisation writes; reading them is deterministic
 	// and is not recorded as an effect.
 	ReadableGlobals map[string]bool
+	// Unroll executes functions along the single concrete path (branch
+	// conditions must be constants), so that loops with constant trip counts
+	// can be run; used to interpret package initialisation (constant tables
+	// filled by a loop).
+	Unroll      bool
+	unrollSteps int
 	// LenientExternals makes unknown external calls return opaque values
 	// instead of failing (used only to interpret package initialisation).
 	LenientExternals bool
@@ -660,6 +666,9 @@ func (in *Interp) callBound(fn *ssa.Function, args []Value, bindings []Value, gu
 	for i, fv := range fn.FreeVars {
 		fr.vals[fv] = bindings[i]
 	}
+	if in.Unroll {
+		return in.runConcrete(fn, fr, guard, st, pos)
+	}
 	order := rpo(fn)
 	index := make(map[*ssa.BasicBlock]int, len(order))
 	for i, b := range order {
@@ -812,6 +821,7 @@ func (in *Interp) callBound(fn *ssa.Function, args []Value, bindings []Value, gu
 				}
 				rets = append(rets, retRec{pred, rv, cur})
 			case *ssa.Panic:
+				in.site("explicit panic", bdd.True)
 				in.T.Emit(pred, "Panic", "", nil, 0, in.P.Pos(x.Pos()))
 			default:
 				in.exec(fr, x, pred, cur)
@@ -921,8 +931,19 @@ func (in *Interp) exec(fr *frame, instr ssa.Instruction, pred bdd.Node, st *Stat
 		if !ok || !iok {
 			in.undecided(x.Pos(), "index of %T", in.operand(fr, x.X))
 		}
+		in.site("index out of range", in.C.M.Not(in.C.Ult(in.C.Resize(iv, in.intWidth(), false), in.C.Const(in.intWidth(), uint64(len(s.Fields))))))
 		if k, isc := iv.IsConst(); isc && int(k) < len(s.Fields) {
 			fr.vals[x] = s.Fields[k]
+		} else if !isc && len(s.Fields) <= 256 {
+			var acc Value
+			for i := len(s.Fields) - 1; i >= 0; i-- {
+				if acc == nil {
+					acc = s.Fields[i]
+				} else {
+					acc = MuxValue(in.C, in.C.Eq(iv, in.C.Const(len(iv), uint64(i))), s.Fields[i], acc)
+				}
+			}
+			fr.vals[x] = acc
 		} else {
 			in.undecided(x.Pos(), "array value indexed by a non-constant")
 		}
@@ -1500,6 +1521,15 @@ func (in *Interp) callInstr(fr *frame, x *ssa.Call, pred bdd.Node, st *State) Va
 			return v
 		}
 	}
+	switch name {
+	case "math/bits.OnesCount8", "math/bits.OnesCount16", "math/bits.OnesCount32", "math/bits.OnesCount64", "math/bits.OnesCount":
+		if bv, ok := args[0].(dom.BV); ok {
+			return in.C.PopCount(bv, in.intWidth())
+		}
+	case "log.Printf", "log.Print", "log.Println":
+		in.T.Emit(pred, "Log", "log", nil, 0, pos)
+		return nil
+	}
 	if strings.HasSuffix(name, ".init") && len(args) == 0 {
 		return nil // initialisation of an imported package
 	}
@@ -1517,15 +1547,6 @@ func (in *Interp) callInstr(fr *frame, x *ssa.Call, pred bdd.Node, st *State) Va
 			}
 			return t
 		}
-	}
-	switch name {
-	case "math/bits.OnesCount8", "math/bits.OnesCount16", "math/bits.OnesCount32", "math/bits.OnesCount64", "math/bits.OnesCount":
-		if bv, ok := args[0].(dom.BV); ok {
-			return in.C.PopCount(bv, in.intWidth())
-		}
-	case "log.Printf", "log.Print", "log.Println":
-		in.T.Emit(pred, "Log", "log", nil, 0, pos)
-		return nil
 	}
 	in.undecided(x.Pos(), "call of external function %s", name)
 	return nil
@@ -1801,4 +1822,73 @@ func (in *Interp) Probe(fn *ssa.Function, args []Value, guard bdd.Node, st *Stat
 		}
 	}()
 	in.call(fn, args, guard, st, fn.Pos())
+}
+
+// runConcrete follows the one concrete path through fn (Unroll mode).
+func (in *Interp) runConcrete(fn *ssa.Function, fr *frame, guard bdd.Node, st *State, pos token.Pos) (Value, *State) {
+	b := fn.Blocks[0]
+	var prev *ssa.BasicBlock
+	for {
+		var next *ssa.BasicBlock
+		// phis read their operands simultaneously
+		phiVals := map[*ssa.Phi]Value{}
+		for _, instr := range b.Instrs {
+			phi, ok := instr.(*ssa.Phi)
+			if !ok {
+				break
+			}
+			for pi, pb := range b.Preds {
+				if pb == prev {
+					phiVals[phi] = in.operand(fr, phi.Edges[pi])
+				}
+			}
+		}
+		for phi, v := range phiVals {
+			fr.vals[phi] = v
+		}
+		for _, instr := range b.Instrs {
+			in.unrollSteps++
+			if in.unrollSteps > 4000000 {
+				in.undecided(instr.Pos(), "initialisation does not finish within the step budget")
+			}
+			in.curInstr, in.curPred = instr, guard
+			switch x := instr.(type) {
+			case *ssa.Phi:
+			case *ssa.If:
+				cv, ok := in.operand(fr, x.Cond).(dom.BV)
+				if !ok || len(cv) != 1 || cv[0] > bdd.True {
+					in.undecided(x.Pos(), "initialisation branches on a value that is not a constant")
+				}
+				if cv[0] == bdd.True {
+					next = b.Succs[0]
+				} else {
+					next = b.Succs[1]
+				}
+			case *ssa.Jump:
+				next = b.Succs[0]
+			case *ssa.Return:
+				var rv Value
+				switch len(x.Results) {
+				case 0:
+				case 1:
+					rv = in.operand(fr, x.Results[0])
+				default:
+					t := &Tuple{}
+					for _, r := range x.Results {
+						t.Elems = append(t.Elems, in.operand(fr, r))
+					}
+					rv = t
+				}
+				return rv, st
+			case *ssa.Panic:
+				in.undecided(x.Pos(), "initialisation panics")
+			default:
+				in.exec(fr, x, guard, st)
+			}
+		}
+		if next == nil {
+			in.undecided(pos, "fell off a block in %s", fn.String())
+		}
+		prev, b = b, next
+	}
 }
